@@ -168,6 +168,9 @@ def gen(seed, family=None, knobs=None):
             services = services + [{"type": "dns-client", "options": {"dns_server": ips["db"] if rnd_s.random() < 0.7 else ips["dns"]}}]
         if rnd_s.random() < 0.25 and not any(x["type"] == "ntp-client" for x in services):
             services = services + [{"type": "ntp-client", "options": {"ntp_server_ip": ips["web"]}}]
+        if kind == "server" and rnd_s.random() < 0.3 and not any(x["type"] == "ftp-client" for x in services):
+            # a dependency of other services (database backups) declared explicitly, with options of its own, before them
+            services = [{"type": "ftp-client", "options": {"fixing_duration": rnd_s.choice([1, 4, 7]), "listen_on_ports": [631]}}] + services
         if services and rnd_s.random() < 0.3:
             services = [dict(x, options=dict(x.get("options") or {}, fixing_duration=rnd_s.choice([0, 1, 3, 4]))) if rnd_s.random() < 0.5 else x for x in services]
         # two hosts of the same kind configured identically (in a YAML file: one block written once and referenced twice)
@@ -215,9 +218,11 @@ def gen(seed, family=None, knobs=None):
             if sv["type"] in ("database-service", "ftp-server") and rnd_w.random() < 0.25:
                 sv["options"] = dict(sv.get("options") or {}, listen_on_ports=[631])
         for ap in kw.get("applications", []):
+            if ap["type"] == "data-manipulation-bot" and rnd_w.random() < 0.35:
+                ap["options"] = dict(ap.get("options") or {}, repeat=False)  # one-shot attack: stays SUCCEEDED / FAILED afterwards
             if ap["type"] == "dos-bot" and rnd_w.random() < 0.5:
                 ap["options"] = dict(ap.get("options") or {}, dos_intensity=rnd_w.choice([0.25, 1.0]), max_sessions=rnd_w.choice([3, 1000]))
-        if fixed is None and name != c2_beacon_host and rnd_w.random() < 0.12:
+        if fixed is None and name != c2_beacon_host and (rnd_w.random() < 0.12 or (knobs.get("off_host") and name == "pc_2")):
             kw["operating_state"] = "OFF"  # a host that is powered off when the episode starts
         n.host(name, ip, gw=gw, kind=kind, **kw)
         n.to_switch(sw, name, bandwidth=bw())
@@ -279,6 +284,14 @@ def gen(seed, family=None, knobs=None):
         add("node-session-remote-login", {"node_name": h, "username": "admin", "password": rnd_x.choice(["admin", "admin", "wrong"]), "remote_ip": tgt})
         add("node-send-remote-command", {"node_name": h, "remote_ip": tgt, "command": rnd_x.choice([["file_system", "create", "folder", "rc"],
                                                                                                       ["service", "dns-client", "stop"], ["os", "scan"]])})
+        fols_h = meta_hosts[h]["folders"]
+        if fols_h:  # terminal commands reach request paths no action type forms (file-system level delete / restore)
+            fo_ = rnd_x.choice(sorted(fols_h))
+            for fi_ in fols_h[fo_][:1]:
+                add("node-send-local-command", {"node_name": h, "username": "admin", "password": "admin", "command": ["file_system", "restore", "file", fo_, fi_]})
+                add("node-send-local-command", {"node_name": h, "username": "admin", "password": "admin", "command": ["file_system", "delete", "file", fo_, fi_]})
+            add("node-send-local-command", {"node_name": h, "username": "admin", "password": "admin", "command": ["file_system", "delete", "folder", fo_]})
+            add("node-send-local-command", {"node_name": h, "username": "admin", "password": "admin", "command": ["file_system", "restore", "folder", fo_]})
         add("node-session-remote-logoff", {"node_name": h, "remote_ip": tgt})
         add("node-send-local-command", {"node_name": h, "username": "admin", "password": rnd_x.choice(["admin", "nope"]),
                                         "command": ["file_system", "create", "file", "lc", "f.txt", False]})
@@ -364,6 +377,14 @@ def gen(seed, family=None, knobs=None):
             fol.append({"folder_name": "database", "files": [{"file_name": "database.db"}]})
         if fol:
             ho["folders"] = fol
+        rnd_h = random.Random(f"{seed}-{h}-host-level-obs-options")
+        for key in ("file_system_requires_scan", "services_requires_scan", "applications_requires_scan"):
+            if rnd_h.random() < 0.2:
+                ho[key] = rnd_h.random() < 0.5  # the same switch given at the host level (wins over the nodes-level value)
+        if rnd_h.random() < 0.15:
+            ho["include_num_access"] = rnd_h.random() < 0.5
+        if rnd_h.random() < 0.15:
+            ho["num_services"] = rnd_h.choice([1, 2, 4])
         host_obs.append(ho)
     if rnd.random() < 0.3:
         host_obs.append({"hostname": "no_such_host"})
